@@ -267,34 +267,42 @@ def run(chk, repo, tier):
     # ---- R13.7 _do_load -------------------------------------------------------
     do_load_keys(chk, repo, 'R13.7')
     dl = repo.func(LIB, 'GroupLibrary._do_load')
-    inc_loops = [n for n in ast.walk(dl) if isinstance(n, ast.For)
-                 and any(isinstance(c, ast.Call) and isinstance(
-                     c.func, ast.Attribute) and c.func.attr == 'Update'
-                     for c in ast.walk(n))]
-    chk.need('R13.7', len(inc_loops), 1, 'include-merging loop')
-    lp = inc_loops[0]
-    want_body = ast.parse(
-        "new_lib.Update(cls._Load(os.path.join(base_path, include_path), "
-        "scheme))").body[0]
-    S = sym.Summarizer(record_calls=False)
-    st = sym.State()
-    S._bind_target(lp.target, ('bv', 0), st)
-    got = [S.k(s.value, st) for s in lp.body if isinstance(s, ast.Expr)]
-    st2 = sym.State(env={'include_path': ('bv', 0)})
-    want = S.k(want_body.value, st2)
     ps = params(dl)
-    want = sym.rename(want, {'name:base_path': ps[2], 'name:scheme': ps[3]})
-    chk.ob('R13.7', len(lp.body) == 1 and got == [want]
-           and dotted(lp.iter) == 'lib_data.include', LIB, lp,
-           key='includes-merged',
-           what='every include is loaded with the same scheme and merged '
-                'through Update without overwrite, in a complete loop',
-           found=' ; '.join(show(g) for g in got), required=show(want))
-    from ..match import loop_has_exit
-    chk.ob('R13.7', not loop_has_exit(lp, (ast.Break, ast.Return,
-                                           ast.Continue)), LIB, lp,
-           key='includes-complete', what='the include loop has no early '
-                                         'exit')
+    # on the path summaries: every returning path runs one loop over the
+    # parsed file's `include` list whose only effect is
+    # <new library>.Update(cls._Load(join(base_path, <item>), scheme))
+    n_inc = 0
+    for p in sym.summarize(dl):
+        if p.outcome[0] != 'return':
+            continue
+        loops = [e for e in p.trace if e[0] == 'loop'
+                 and e[1][0][1][0] == 'attr' and e[1][0][1][2] == 'include']
+        ok = len(loops) == 1
+        found = '%d include loop(s)' % len(loops)
+        if ok:
+            (base, it, _), = loops[0][1]
+            bodies = loops[0][2]
+            want_arg = ('call', ('attr', ('name', ps[0]), '_Load'),
+                        (('call', ('attr', ('attr', ('name', 'os'), 'path'),
+                                   'join'), (('name', ps[2]), base), ()),
+                         ('name', ps[3])), ())
+            ok = len(bodies) == 1 and bodies[0][1] is None
+            if ok:
+                evs = [e for e in bodies[0][0] if e[0] in ('expr', 'store',
+                                                           'cond', 'loop')]
+                ok = (len(evs) == 1 and evs[0][0] == 'expr'
+                      and is_call(evs[0][1])
+                      and evs[0][1][1][0] == 'attr'
+                      and evs[0][1][1][2] == 'Update'
+                      and evs[0][1][1][1] == p.outcome[1]
+                      and evs[0][1][2] == (want_arg,) and not evs[0][1][3])
+                found = ' ; '.join(show(e[1]) for e in evs)
+        n_inc += 1
+        chk.ob('R13.7', ok, LIB, dl, key='includes-merged',
+               what='every include is loaded with the same scheme and merged '
+                    'through Update without overwrite, in a complete loop '
+                    '(no early exit, no filter)', found=found[:300])
+    chk.need('R13.7', n_inc, 1, 'returning paths of _do_load')
     # ---- R13.9 the library container ---------------------------------------------
     from .. import reviewed
     from ..effects import FuncEffects
